@@ -14,8 +14,8 @@
    A panic of the Go code (plog.Panicf / panic) is [h_err <> 0]: the step that
    panics is rolled back and only records the error; every later step is the
    identity.  [h_broken] records that the environment broke an assumption the
-   theorems state explicitly (key collision, close called twice, an entry
-   reported committed twice). *)
+   theorems state explicitly (key collision with a pending or in-flight proposal, close called twice,
+   an entry reported committed twice). *)
 From Coq Require Import NArith ZArith List Bool.
 From DB Require Import Gen.GenC12.
 Import ListNotations.
@@ -318,6 +318,13 @@ Definition lq_outcome (s : st) : N :=
 Definition cc_outcome (s : st) (to : N) : N := x_outcome (C s) to.
 Definition ss_outcome (s : st) (to : N) : N := x_outcome (S s) to.
 
+(* fresh_key, the part about proposals between their two critical sections: a request
+   that is still in flight (pending[key] = req done, proposals.add not yet) deletes
+   pending[key] when the queue refuses it - whatever is stored there *)
+Definition N_below (n : N) : list N := map N.of_nat (seq 0 (N.to_nat n)).
+Definition key_in_flight (h : heap) (key : N) : bool :=
+  existsb (fun r => (r_status (h_reqs h r) =? 0) && (r_key (h_reqs h r) =? key)) (N_below (h_nreq h)).
+
 Inductive op :=
 (* clients *)
 | ProposeA (cid sid key to pick : N)   (* propose: pool.Get, reuse, pending[key] = req *)
@@ -349,7 +356,10 @@ Definition step0 (s : st) (o : op) : st :=
     let dl := add64 (h_clock h) to in
     let '(h1, ob) := get_obj pick (cnc s) rid key cid sid dl h in
     let h2 := add_req h1 (mkReq 0 ob key cid sid dl (cnc s) 0 false [] [] []) in
-    let h3 := match find_key key (pend (P s)) with Some _ => set_broken h2 | None => h2 end in
+    let h3 := match find_key key (pend (P s)) with
+              | Some _ => set_broken h2
+              | None => if key_in_flight h key then set_broken h2 else h2
+              end in
     setHP s h3 (p_set_pend (P s) ((key, mkSlot ob rid) :: remove_key key (pend (P s))))
   | ProposeB i =>
     let q := h_reqs h i in
